@@ -46,12 +46,18 @@ type Config struct {
 	KM     string // "memkm" | "localkm"
 	CA     string // "memca" | "gcsca" (over SimDisk) | "localca" (gcsca over storage/local)
 	ViaCLI bool   // drive the cobra commands instead of the rotate library calls
+	// LongLived: one set of key-manager / CA objects serves the whole run (a long-lived signing
+	// service) instead of a fresh process per command. Library configurations only.
+	LongLived bool
 }
 
 func (c Config) String() string {
 	via := "lib"
 	if c.ViaCLI {
 		via = "cli"
+	}
+	if c.LongLived {
+		via += "+long-lived"
 	}
 	return c.KM + "+" + c.CA + "/" + via
 }
@@ -83,6 +89,11 @@ type Authority struct {
 	// UsedSigner is the signer object of the most recent simulated process (for inspection).
 	lastSigner *nonprod.Signer
 
+	// Persist models a long-lived process: the same key-manager and certificate-authority objects
+	// (with whatever they cache) serve every operation and view instead of fresh ones per command.
+	Persist bool
+	proc    *process
+
 	// Ordering bookkeeping of the operation in flight (decorated runs only).
 	FinalizeOK bool // the CA's Finalize has returned nil in this operation
 	Destroys   []DestroyRec
@@ -96,7 +107,7 @@ type DestroyRec struct {
 
 // NewAuthority builds an empty authority for the run.
 func NewAuthority(r *core.Run, cfg Config, plan *seams.FaultPlan) *Authority {
-	a := &Authority{R: r, Cfg: cfg, Plan: plan, Now: Epoch,
+	a := &Authority{R: r, Cfg: cfg, Plan: plan, Now: Epoch, Persist: cfg.LongLived && !cfg.ViaCLI,
 		Keygen: &keypool.Gen{Base: r.Intn(len(keypool.Pool()), "keypool-base")},
 		Rand:   core.NewDetReader(r.Seed ^ 0x5eed)}
 	a.Signer = &nonprod.Signer{Rand: a.Rand}
@@ -143,7 +154,14 @@ func (a *Authority) storage(faulty bool) storagei.Client {
 // newProcess builds fresh component objects over the durable state. faulty selects whether the
 // storage seam consults the fault plan (operations) or not (oracle views).
 func (a *Authority) newProcess(faulty bool) (*process, error) {
+	if a.Persist && a.proc != nil {
+		return a.proc, nil
+	}
 	p := &process{}
+	if a.Persist {
+		faulty = true // one set of objects for operations and views alike
+		defer func() { a.proc = p }()
+	}
 	switch a.Cfg.KM {
 	case "memkm":
 		km := &memkm.T{Signer: a.Signer}
@@ -319,6 +337,9 @@ func (a *Authority) Bootstrap(b BootArgs) (err error, crashed bool) {
 		}
 		return rotate.Bootstrap(ctx)
 	})
+	if crashed {
+		a.proc = nil
+	}
 	a.R.Eventf("op bootstrap -> %s", errClass(err, crashed))
 	return err, crashed
 }
@@ -365,6 +386,9 @@ func (a *Authority) Rotate(ra RotArgs) (err error, crashed bool) {
 		_, err = rotate.Key(ctx)
 		return err
 	})
+	if crashed {
+		a.proc = nil
+	}
 	a.R.Eventf("op rotate -> %s", errClass(err, crashed))
 	return err, crashed
 }
@@ -397,6 +421,9 @@ func (a *Authority) Wipeout(what string, f Flags) (err error, crashed bool) {
 		}
 		return rotate.Wipeout(ctx)
 	})
+	if crashed {
+		a.proc = nil
+	}
 	a.R.Eventf("op wipeout -> %s", errClass(err, crashed))
 	return err, crashed
 }
